@@ -168,7 +168,12 @@ def r_close_order(ctx: Ctx, rule: str):
                 rep.ob(rule, f"_closed.set() is dominated by the completed wait for {fld}", bool(doms) and dominated_by_completion(g, _copies(g, doms), s), node=s)
             for fld in sorted(TASK_FIELDS):
                 forget = ctx.nodes(f, lambda n: any(e.kind in ("clear", "assign") and e.path == "self." + fld for e in ctx.eff.of_node(n)))
-                rep.ob(rule, f"when the pool is closed it no longer holds tasks ({fld} forgotten before _closed.set())", bool(forget) and dominated_by_completion(g, forget, s), node=s)
+                before = bool(forget) and dominated_by_completion(g, forget, s)
+                # ... or right after it, in the same non-suspending stretch: nobody can see the pool closed and still holding tasks
+                copies_s = [x for x in g.nodes if x.ast is s.ast and x.op == s.op and x.pred]
+                after = bool(forget) and all(g.exit not in reach([b for b, lab in x.succ if lab[0] in NORMAL_KINDS], lambda a, b, lab: lab[0] in NORMAL_KINDS, avoid=set(forget))
+                                            for x in copies_s) and not any(m.suspends or m.user for m in between(copies_s, forget))
+                rep.ob(rule, f"when the pool is closed it no longer holds tasks ({fld} forgotten before _closed.set())", before or after, node=s)
         for fld in sorted(TASK_FIELDS):
             forget = ctx.nodes(f, lambda n: any(e.kind in ("clear", "assign", "remove") and e.path == "self." + fld for e in ctx.eff.of_node(n)))
             for c in ctx.distinct_sites(forget):
